@@ -173,8 +173,19 @@ def o_C05(tr: Trace, h: str = "D") -> Fails:
     # trace does not say whether an ambiguous call attempted a write (a rejection is consumed by the
     # next write attempt, whatever it writes)
     pmin = pmax = 0
+    cancelled = False      # the current transaction was cancelled (user, peer's EOF (cancel), or a fault whose
+    #                        handler is "notice of cancellation"): only then may its file be discarded
     for e in tr.for_h(h):
         before, after = e.prev, e.st
+        if before is None or before.state == "IDLE":
+            cancelled = False
+        if e.op == "cancel" and after.ok and " ret=true" in e.out:
+            cancelled = True
+        if any(x.startswith("cancel(") for x in (after.flt if after.ok else [])):
+            cancelled = True
+        if e.op == "sm" and e.inp is not None and e.exc not in ADMISSION_EXC and pdu_kind(e.inp) == "eof" \
+                and pdu_fields(e.inp).get("cond", "0") != "0":
+            cancelled = True
         if e.op == "reject":
             pmin += int(e.line.split()[2])
             pmax += int(e.line.split()[2])
@@ -243,8 +254,15 @@ def o_C05(tr: Trace, h: str = "D") -> Fails:
         if path is not None:
             ok = any(got == cnd for cnd in cands)
             if not ok and disp and got is None and path not in e.fs:
-                ok = True
-                cands = [None]
+                if cancelled:
+                    ok = True
+                    cands = [None]
+                else:
+                    f.add("C05:file-discarded-without-cancellation",
+                          {"path": path, "expected": [None if x is None else x.hex() for x in cands],
+                           "op": e.line[:200]}, e.idx)
+                    ok = True
+                    cands = [None]
             if not ok:
                 f.add("C05:content-differs-from-write-model",
                       {"path": path, "expected": [None if x is None else x.hex() for x in cands],
